@@ -62,6 +62,10 @@ PROPS = {
     "C05": dict(module="ZkElGamal.Props.C05", ns="Zk.Props.C05", trusted=[DALEK, MERLIN],
                 assumptions=[DALEK, MERLIN, "completeness theorems carry the hypothesis that the masking commitments are not the identity (fails with probability ~2^-252 over honest nonces)",
                              "rand::OsRng is external: the model takes nonces as explicit arguments"]),
+    "C18": dict(module="ZkElGamal.Props.C18", ns="Zk.Props.C18",
+                trusted=["zeroize crate and the compiler (the wipe must not be elided; moves may copy) are external: observed by reading the value's storage after ManuallyDrop::drop"],
+                assumptions=["PARTIAL: copies made by moves, Copy scalars inside provers, register/stack residue and compiler elision cannot be exhibited by a model; only the storage of the dropped value is inspected",
+                             "secrets whose byte pattern coincides with constants of the zeroized public point (e.g. the scalar 1) are excluded from the storage inspection to avoid coincidental matches"]),
     "C19": dict(module="ZkElGamal.Props.C19", ns="Zk.Props.C19", trusted=[DALEK],
                 rule="each op is N repeated calls of one generator/prover on identical inputs; the verdict is pairwise distinctness of every fresh field across the N calls (no model needed); distinct = distinct op body",
                 assumptions=["rand::OsRng / getrandom is external: that the OS source never repeats is not shown",
@@ -137,6 +141,11 @@ MANIFEST_TEXT = {
              "fees below and exactly at the cap: constructor outcome and context bytes equal the model's, and every produced proof (Rust prover and model prover) verifies in both verifiers. "
              "Finding F2 (capped branch unreachable) was exhibited by this check and repaired by a fix: commit. Range instructions: constructor outcome/context and cross-verification in the correspondence (all admissible splits sampled, boundary amounts). PARTIAL: byte-level completeness theorems for the validity/cap/range instructions are not proved (differential only).",
         note=SIGMA_NOTE + " OsRng is external (nonces are explicit in the model)."),
+    "C18": dict(
+        technique="Lean 4 proof (attribute/Debug table regenerated from source by `decide +kernel`; invariant by induction over create/clone/drop sequences; Debug non-interference) + storage inspection after drop and search of Debug output",
+        text="Theorems: on this run's source all four secret types carry zeroize(drop), none derives Debug, and the manual Debug impls print only \"[REDACTED]\" (key pair: plus the public key); for every operation sequence every dropped region is all-zero; Debug of the single-field types is a constant. "
+             "Correspondence: for values obtained by decoding, From, cloning, derivation, cloning out of a key pair, and opening arithmetic (add/sub/mul): the storage that held the secret is read after ManuallyDrop::drop and must hold no non-zero chunk of it; {:?} / {:#?} output compared with the constant template and searched for hex/decimal/base64 renderings. PARTIAL (moves, stack residue, compiler).",
+        note="Trusted: Lean kernel; translator's attribute parsing; zeroize/compiler external."),
     "C19": dict(
         technique="Lean 4 proof (published values are injective in the nonces; nonce reuse leaks the witness) + repeated-call distinctness test of every generator, encryptor and prover on identical inputs",
         text="Theorems: y*P injective in y for P != 0; commitments injective in (x, r) for independent generators; different openings give different handles / commitments / masking-commitment bytes (codec injective); shared nonce + different challenges reveal the witness. "
